@@ -380,6 +380,13 @@ where
         new_cells.push(cell_key);
     }
 
+    #[cfg(delaunay_verif)]
+    if crate::core::util::verif_failpoints::hit("flip.after_insert_cells") {
+        return Err(FlipError::NeighborWiring {
+            message: "verif failpoint: flip.after_insert_cells".to_string(),
+        });
+    }
+
     let boundary_facets =
         extract_cavity_boundary(tds, removed_cells).map_err(|e| FlipError::NeighborWiring {
             message: format!("flip boundary extraction failed: {e}"),
@@ -400,7 +407,20 @@ where
         message: e.to_string(),
     })?;
 
+    #[cfg(delaunay_verif)]
+    if crate::core::util::verif_failpoints::hit("flip.after_wire") {
+        return Err(FlipError::NeighborWiring {
+            message: "verif failpoint: flip.after_wire".to_string(),
+        });
+    }
+
     tds.remove_cells_by_keys(removed_cells);
+    #[cfg(delaunay_verif)]
+    if crate::core::util::verif_failpoints::hit("flip.after_remove_cells") {
+        return Err(FlipError::TdsMutation {
+            message: "verif failpoint: flip.after_remove_cells".to_string(),
+        });
+    }
     tds.normalize_coherent_orientation()
         .map_err(|e| FlipError::TdsMutation {
             message: e.to_string(),
@@ -2899,6 +2919,13 @@ where
     U: DataType,
     V: DataType,
 {
+    // Failpoint: the postcondition pass of a repair attempt reports a remaining violation.
+    #[cfg(delaunay_verif)]
+    if crate::core::util::verif_failpoints::hit("repair.postcondition") {
+        return Err(DelaunayRepairError::PostconditionFailed {
+            message: "verif failpoint: repair.postcondition".to_string(),
+        });
+    }
     verify_repair_postcondition_locally(tds, kernel, seed_cells)
 }
 
